@@ -384,7 +384,7 @@ class MultiVector:
             return self
         keys_out, func = self._callable
         if kwargs:
-            args = [v for k, v in sorted(kwargs.items(), key=lambda x: x[0])]
+            args = [kwargs[s.name] for s in sorted(self.free_symbols, key=lambda x: x.name)]
         values = func(args)
         return self.fromkeysvalues(self.algebra, keys_out, values)
 
